@@ -65,6 +65,8 @@ def c09_program(rng):
     elif r == 5: core = A.GreedyRange(c09_alt(rng), discard=rng.random() < 0.25)
     elif r == 6:
         subs = [A.Renamed(nm, c09_alt(rng)) for nm in "abc"[:rng.choice([1, 2, 3])]]
+        if rng.random() < 0.4:          # members without a name are parsed from the common start too (signatures, padding)
+            subs.insert(rng.randrange(len(subs) + 1), rng.choice([A.Const(b"\x01"), A.Padding(1), A.Bytes(2), A.Alias("Int16ub")]))
         pf = rng.choice([None, 0, len(subs) - 1, "a", A.T("a")]) if True else None
         core = A.Union(pf, *subs)
     elif r == 7: core = A.GreedyRange(A.Select(c09_alt(rng, 0), c09_alt(rng, 0)))
@@ -114,7 +116,7 @@ def c13_values(rng, prog):
     return vals
 
 # ---------------------------------------------------------------- C07: scopes and reference paths
-SCOPES = ["Struct", "Sequence", "FocusedSeq", "Union", "Array", "GreedyRange", "RepeatUntil"]
+SCOPES = ["Struct", "Sequence", "FocusedSeq", "Union", "Array", "GreedyRange", "RepeatUntil", "LazyStruct"]
 PATHS = [("x",), ("_", "x"), ("_", "_", "x"), ("_root", "x"), ("_params", "k"), ("_index",), ("_", "_index"),
          ("_parsing",), ("_building",), ("_sizing",), ("_", "_params", "k"), ("_root", "_params", "k"), ("y",), ("_", "y")]
 
@@ -142,6 +144,11 @@ def c07_scope(rng, depth, names):
     kind = rng.choice(SCOPES)
     path = rng.choice(PATHS)
     members = [A.Renamed("x", A.Alias("Byte")), A.Renamed("y", A.Alias("Byte"))]
+    r = rng.random()
+    if r < 0.15:        # a member whose value is made at build time: later references must see what was written, not what was given
+        members[0] = A.Renamed("x", A.Default(A.Alias("Byte"), rng.choice([1, 2, 3])))
+    elif r < 0.3:
+        members[0] = A.Renamed("x", A.Rebuild(A.Alias("Byte"), A.Bin("+", A.Bin("%", A.T("y"), A.C(3)), A.C(1))))
     inner = []
     if depth > 0:
         sub = c07_scope(rng, depth - 1, names)
@@ -151,6 +158,7 @@ def c07_scope(rng, depth, names):
     pr = A.Renamed("p", probe(rng, path))
     body = members + ([pr] + inner if rng.random() < 0.5 else inner + [pr])
     if kind == "Struct": return A.Struct(*body)
+    if kind == "LazyStruct": return A.N("LazyStruct", subs=body)
     if kind == "Sequence": return A.Sequence(*body)
     if kind == "FocusedSeq": return A.FocusedSeq(rng.choice(["p", "x", "s"] if inner else ["p", "x"]), *body)
     if kind == "Union": return A.Union(rng.choice([None, 0, "x"]), *body)
